@@ -21,12 +21,17 @@ import multiprocessing
 import os
 import time
 
+from tools.tr import tr_routing
 from tools.vlib import coqrun, repoenv
 from tools.vlib.coqrun import cz
 
 IMPORTS = ("From Coq Require Import ZArith List Bool.\n"
            "From IPV8V Require Import lib.PyErr model.M14_routing model.M14_harness.\n"
            "Import ListNotations.\nOpen Scope Z_scope.\n")
+
+IMPORTS_GEN = ("From Coq Require Import ZArith List Bool.\n"
+               "From IPV8V Require Import lib.PyErr model.M14_routing model.M14_harness model.M14_harness_gen.\n"
+               "Import ListNotations.\nOpen Scope Z_scope.\n")
 
 W = 160
 FULL = (1 << W) - 1
@@ -814,6 +819,22 @@ def shrink_case(c, key, budget=10.0):
     return cur
 
 
+def translate(ctx):
+    """stage G of the extension: routing.py -> coq/gen/G14_routing.v; None (reported as broken) when the
+    translator does not recognise the source"""
+    try:
+        text = tr_routing.write()
+        ctx.extra.setdefault("generated", {})["gen/G14_routing.v"] = len(text)
+        return text
+    except Exception as e:   # tr_expr.Unsupported or anything else: fail closed
+        ctx.broke("translator tr_routing aborted", e)
+        try:
+            os.remove(tr_routing.DEST)     # nothing may be proved or evaluated against a stale translation
+        except OSError:
+            pass
+        return None
+
+
 # ---------------------------------------------------------------------------- the check
 def run(ctx):
     impl()
@@ -825,9 +846,15 @@ def run(ctx):
 
     # ---- stage P
     ctx.proofs()
+    # extension: the functions of routing.py translated from the AST (gen/G14_routing.v), refinement in props/C14x.v
+    gtext = translate(ctx)
+    gen_ok = gtext is not None and ctx.proofs(part="C14x")
+    ctx.extra["generated_model_usable"] = bool(gen_ok)
     ctx.coverage["trusted_base"] = [
         "Coq 8.16.1 kernel (coqc, vm_compute); no axioms (Print Assumptions: closed)",
         "hand model coq/model/M14_routing.v of trie.py and Bucket/RoutingTable (routing.py), tied by this run's correspondence",
+        "translator tools/tr/tr_routing.py (routing.py -> gen/G14_routing.v) and the runtime vocabulary coq/model/M14_routing_gen.v "
+        "(dict/set/string/sort/trie-alias semantics, oracles for clock, contact times and randint); trie.py itself stays a hand model",
         "harness Node subclass with settable id/rtt/failed (one public key per id); Node.status is BAD iff failed >= 2",
         "bytes <-> bit-list conversion of identifiers in the harness (format(int, '0160b'))",
     ]
@@ -836,7 +863,7 @@ def run(ctx):
                        "one Node object per identifier inside a table (Peer equality is by public key)"]
     pool = multiprocessing.Pool(14)
     try:
-        _run_stage_c(ctx, pool)
+        _run_stage_c(ctx, pool, gen_ok)
     finally:
         pool.terminate()
         pool.join()
@@ -848,7 +875,7 @@ def _trace(ctx, what):
         print("[c14 %6.1fs] %s" % (time.time() - ctx.t0, what), file=sys.stderr, flush=True)
 
 
-def _run_stage_c(ctx, pool):
+def _run_stage_c(ctx, pool, gen_ok=False):
     r = ctx.rng("main")
     scratch = ctx.scratch
     _trace(ctx, "stage C starts")
@@ -881,6 +908,14 @@ def _run_stage_c(ctx, pool):
     for i in mism[:5]:
         ctx.broke("correspondence: generate_id differs between model and implementation", gen_cases[i])
     ctx.coverage["traces_validated_against_impl"] += len(gen_cases) - len(mism)
+    if gen_ok:
+        mism, errs = coqrun.eval_mismatches(IMPORTS_GEN, "run_genid_gen", "Z.eqb", gen_cases, os.path.join(scratch, "gidg"),
+                                            ctype="(Z * Z * Z) * Z", shard=400)
+        for e in errs:
+            ctx.broke("generated model evaluation failed (generate_id)", e)
+        for i in mism[:5]:
+            ctx.broke("correspondence: generate_id differs between the GENERATED model and the implementation", gen_cases[i])
+        ctx.coverage["traces_validated_against_impl"] += len(gen_cases) - len(mism)
 
     _trace(ctx, "generate_id done (%d cases)" % len(gen_cases))
     # ---- trie: exhaustive short sequences + random
@@ -992,6 +1027,21 @@ def _run_stage_c(ctx, pool):
         ctx.broke("correspondence: routing history differs between model and implementation",
                   json.dumps({"cap": cap, "centers": ["%x" % c for c in centers], "n_ops": len(ops), "ops_head": ops_json(ops[:30])})[:3500])
     ctx.coverage["traces_validated_against_impl"] += len(coq_cases) - len(mism)
+    if gen_ok:
+        # the same histories (the shorter ones) evaluated by the functions generated from routing.py
+        pick = [j for j in range(nh) if len(hist_in[order[j]][2]) <= 400][:(48 if ctx.quick else 400)]
+        gcases = [coq_cases[j] for j in pick]
+        mism, errs = coqrun.eval_mismatches(IMPORTS_GEN, "run_hist_gen", "list_eqb hres_eqb", gcases, os.path.join(scratch, "histg"),
+                                            ctype="hist_case * list hres", shard=4 if ctx.quick else 8, jobs=14, timeout=1500)
+        _trace(ctx, "histories generated-model done (%d)" % len(gcases))
+        for e in errs:
+            ctx.broke("generated model evaluation failed (histories)", e)
+        for m in mism[:5]:
+            cap, centers, ops, seed, checks = hist_in[order[pick[m]]]
+            ctx.broke("correspondence: routing history differs between the GENERATED model and the implementation",
+                      json.dumps({"cap": cap, "centers": ["%x" % c for c in centers], "n_ops": len(ops), "ops_head": ops_json(ops[:30])})[:3500])
+        ctx.coverage["traces_validated_against_impl"] += len(gcases) - len(mism)
+        ctx.extra["generated_model_histories"] = len(gcases)
     ctx.extra["op_mix"] = opmix
     ctx.extra["history_stats"] = agg
     ctx.coverage["rule"] = (
